@@ -169,7 +169,7 @@ func instrumentFile(path string, order, points bool, pkg string) (int, []byte) {
 			case !keyUsed && order:
 				rs.X = &ast.CallExpr{Fun: &ast.SelectorExpr{X: ast.NewIdent("verifhook"), Sel: ast.NewIdent("Order")}, Args: []ast.Expr{siteLit, orig}}
 				n++
-			case keyUsed && !valUsed && order && rs.Tok == token.DEFINE:
+			case keyUsed && !valUsed && (order || keyed) && rs.Tok == token.DEFINE:
 				k, ok := rs.Key.(*ast.Ident)
 				if !ok {
 					return true
